@@ -7,7 +7,9 @@ use std::panic;
 mod oracle;
 mod c01;
 mod c04;
+mod c06;
 mod c07;
+mod c10;
 
 pub struct Rng(pub u64);
 impl Rng {
@@ -53,8 +55,10 @@ fn main() {
     let mut rng = Rng(seed.wrapping_mul(0x9E3779B97F4A7C15) | 1);
     let mut fails: Vec<Failure> = Vec::new();
     match prop {
-        "C01" => c01::search(&mut rng, budget, &mut fails),
+        "C01" => { c01::search(&mut rng, budget, &mut fails); if fails.is_empty() { c06::search(&mut rng, budget / 4, &mut fails); } }
         "C07" => c07::search(&mut rng, budget, &mut fails),
+        "C06" => c06::search(&mut rng, budget, &mut fails),
+        "C10" => c10::search(&mut rng, budget, &mut fails),
         "C04" | "C03" => c04::search(&mut rng, budget, &mut fails),
         _ => {
             eprintln!("no replay search for {prop}");
